@@ -56,6 +56,9 @@ Qed.
 Definition has_prefix (p s : bytes) : bool :=
   match strip_prefix p s with Some _ => true | None => false end.
 
+Definition hd_is (c : N) (s : bytes) : bool :=
+  match s with d :: _ => d =? c | [] => false end.
+
 (* character classes *)
 Definition is_digit (c : N) : bool := (48 <=? c) && (c <=? 57).
 Definition is_upper (c : N) : bool := (65 <=? c) && (c <=? 90).
